@@ -10,6 +10,7 @@ import Y0.Driver.Latent
 import Y0.Driver.Cf
 import Y0.Driver.Ctf
 import Y0.Driver.Transport
+import Y0.Driver.CtfTr
 import Y0.Driver.Print
 import Y0.Driver.Tian
 import Y0.Driver.Sem
@@ -29,6 +30,7 @@ def dispatch (line : String) : String :=
       | "cf" => handleCf op args
       | "ctf" => handleCtf op args
       | "transport" => handleTransport op args
+      | "ctftr" => handleCtfTr op args
       | "print" => handlePrint op args
       | "tian" => handleTian op args
       | "sem" => handleSem op args
